@@ -346,7 +346,7 @@ def check_world(desc, parameter_mode):
             if {id(t) for t in ch.required_tasks(a, include_self=True)} != req | {node[a]} or {id(t) for t in ch.dependent_tasks(a, include_self=True)} != dep | {node[a]}:
                 return [('include_self not honoured', a)]
             for b in m.tasks:
-                exp_b = (node[b] in reach[node[a]]) or node[a] == node[b]
+                exp_b = node[b] in reach[node[a]] and node[a] != node[b]   # the transitive closure of an acyclic relation is irreflexive, like required_tasks / dependent_tasks
                 if bool(ch.is_task_dependent_on(a, b)) != exp_b:
                     return [('is_task_dependent_on disagrees with the closure', f'{a} on {b}: {ch.is_task_dependent_on(a, b)} vs {exp_b}')]
         return out
